@@ -123,6 +123,9 @@ class Check:
         for tf, _, _, _ in res:
             if collect:
                 collect(tf)
+            if os.environ.get("VERIF_KEEP_TRACES"):          # debugging aid
+                os.makedirs(os.environ["VERIF_KEEP_TRACES"], exist_ok=True)
+                shutil.copy(tf, os.environ["VERIF_KEEP_TRACES"])
             try:
                 os.remove(tf)
             except OSError:
